@@ -63,13 +63,13 @@ theorem client_rtp_sent {max : Nat} {ctx : Option Nat} {p : RtpShape} {w : Nat}
   | none =>
     simp at hx; subst hx
     rw [plainLimit_none] at hle
-    simp [rtpGrowth] at *
-    omega
+    simp at hw
+    refine ⟨hwf, ?_, ?_⟩ <;> (try simp only [rtpGrowth]) <;> omega
   | some m =>
     simp at hx; subst hx
     rw [plainLimit_some] at hle; simp only [c1, c2, if_true] at hle
-    simp [rtpGrowth, srtpLen, c3] at *
-    omega
+    simp [srtpLen, c3] at hw
+    refine ⟨hwf, ?_, ?_⟩ <;> (try simp only [rtpGrowth, c3]) <;> omega
 
 theorem server_rtp_own_sent {max ov : Nat} {ctx : Option Nat} {p : RtpShape} {w : Nat}
     (hov : ov = 10) (hm : ctxMki ctx = 0)
@@ -82,14 +82,14 @@ theorem server_rtp_own_sent {max ov : Nat} {ctx : Option Nat} {p : RtpShape} {w 
   | none =>
     simp at hx; subst hx
     rw [plainLimit_none] at hle
-    simp [rtpGrowth] at *
-    omega
+    simp at hw
+    refine ⟨hwf, ?_, ?_⟩ <;> (try simp only [rtpGrowth]) <;> omega
   | some m =>
     simp [ctxMki] at hm; subst hm
     simp at hx; subst hx
     rw [plainLimit_some] at hle; simp only [hov] at hle
-    simp [rtpGrowth, srtpLen, c3] at *
-    omega
+    simp [srtpLen, c3] at hw
+    refine ⟨hwf, ?_, ?_⟩ <;> (try simp only [rtpGrowth, c3]) <;> omega
 
 theorem stream_rtp_sent {max : Nat} {ctx : Option Nat} {rs : Bool} {p : RtpShape} {w : Nat}
     (hm : ctxMki ctx = 0) (h : streamWriteRtp max ctx rs p = .sent w) :
@@ -104,12 +104,14 @@ theorem stream_rtp_sent {max : Nat} {ctx : Option Nat} {rs : Bool} {p : RtpShape
   | none =>
     simp at hx; subst hx
     rw [plainLimit_none] at hle
-    cases rs <;> simp [Path.wire, rtpGrowth] at * <;> omega
+    cases rs <;> simp at hw <;>
+      refine ⟨hwf, ?_, ?_, ?_⟩ <;> (try simp only [Path.wire, rtpGrowth]) <;> omega
   | some m =>
     simp [ctxMki] at hm; subst hm
     simp at hx; subst hx
     rw [plainLimit_some] at hle; simp only [c1] at hle
-    cases rs <;> simp [Path.wire, rtpGrowth, srtpLen, c3] at * <;> omega
+    cases rs <;> simp [srtpLen, c3] at hw <;>
+      refine ⟨hwf, ?_, ?_, ?_⟩ <;> (try simp only [Path.wire, rtpGrowth, c3]) <;> omega
 
 /-! #### RTCP -/
 
